@@ -51,7 +51,7 @@ func main() {
 		return
 	}
 	r := ev.Start("C17", "exploration")
-	r.SetBudget(6*time.Minute, 40*time.Minute)
+	r.SetBudget(8*time.Minute, 45*time.Minute)
 	scratch, cleanup := scratchDir()
 	maxLen := 8
 	if r.Thorough() {
@@ -195,6 +195,11 @@ func replay(path string) {
 	json.Unmarshal(doc.Witness, &k)
 	fmt.Printf("replaying %s\n signature: %s\n", path, doc.Signature)
 	reproduced := false
+	go func() {
+		time.Sleep(60 * time.Second)
+		fmt.Println(" still running after 60 s: hang reproduced")
+		os.Exit(1)
+	}()
 	switch k.Kind {
 	case "roundtrip":
 		var w rtWitness
@@ -243,11 +248,6 @@ func replay(path string) {
 		f := formatByName(w.Format)
 		in, _ := hex.DecodeString(w.InputHex)
 		fmt.Printf(" format=%s input=%d bytes (%s) recorded clause=%s\n", w.Format, len(in), w.Mutation, w.Clause)
-		go func() {
-			time.Sleep(20 * time.Second)
-			fmt.Println(" Decode still running after 20 s: hang reproduced")
-			os.Exit(1)
-		}()
 		out, rem, err, pan := safeDecode(f, nil, in)
 		bound := boundMul*len(in) + boundConst
 		fmt.Printf(" Decode: %d bytes out (bound %d) remainder=%d err=%v panic=%q\n", len(out), bound, len(rem), err, pan)
